@@ -131,7 +131,8 @@ DEFAULT_LEAVES = {
     TT: [F("d"), dtlit("2020-02-29T23:59:59Z")],
     NOW: [T.call("now")],
     D: [("Date", "2020-02-29")],
-    LI: [T.lst(T.Int(0), T.Int(1)), T.lst(T.Int(3)), T.lst(T.Int(-2), T.Int(0), T.Int(3))],
+    LI: [T.lst(T.Int(0), T.Int(1)), T.lst(T.Int(3)), T.lst(T.Int(-2), T.Int(0), T.Int(3)),
+         T.lst(T.Flt("1.5"), T.Int(3)), T.lst(T.Flt("3.0"), T.Flt("0.5"))],       # decimal members: no member may be truncated to the left side's type
     LS: [T.lst(T.Str("a"), T.Str("%")), T.lst(T.Str("a'b")), T.lst(T.Str(""), T.Str("A"))],
     "RX": [T.Str("^a"), T.Str("b$")],
     TM: [("Time", "23:59:59"), ("Time", "12:30:00")],
